@@ -602,6 +602,8 @@ type c08Run struct {
 	r   *core.Run
 	bin string
 	mu  sync.Mutex
+	// samples kept per shape family
+	sampled map[string]int
 }
 
 func (c *c08Run) violate(sig, what string, v *c08Verdict) {
@@ -873,8 +875,12 @@ func (c *c08Run) judged(p *c08Pkg, v *c08Verdict) {
 	}
 	c.mu.Lock()
 	defer c.mu.Unlock()
-	if len(v.Problems) > 0 || int(r.GetCount("samples_"+strings.SplitN(p.Shape, " ", 2)[0])) < want {
-		r.Count("samples_"+strings.SplitN(p.Shape, " ", 2)[0], 1)
+	fam := strings.SplitN(p.Shape, " ", 2)[0]
+	if i := strings.IndexAny(fam, "-:"); i > 0 {
+		fam = fam[:i]
+	}
+	if len(v.Problems) > 0 || c.sampled[fam] < want {
+		c.sampled[fam]++
 		r.Sample(40, v)
 	}
 }
@@ -995,14 +1001,14 @@ func runC08(r *core.Run) (bool, string) {
 	if err != nil {
 		return false, "cannot build goose: " + err.Error()
 	}
-	c := &c08Run{r: r, bin: bin}
+	c := &c08Run{r: r, bin: bin, sampled: map[string]int{}}
 	mods := []*c08Module{c08MainModule()}
 	hides := [][]string{nil, {pMD}, {pMAD}, {pPD}, {pPAD}}
 	for k, h := range hides {
 		mods = append(mods, c08HiddenModule(k, h))
 	}
 	rng := core.NewRng(r.Seed, "c08-random")
-	nrand := r.Pick(1, 12)
+	nrand := r.Pick(1, 30)
 	for k := 0; k < nrand; k++ {
 		mods = append(mods, c08RandomModule(rng.Fork(fmt.Sprint(k)), k, r.Pick(40, 90)))
 	}
